@@ -1,12 +1,12 @@
 SPECIFICATION Spec
 CONSTANTS
-  Names <- NamesT
-  Texts <- TextsT
-  CommentTexts <- CommentsT
-  ContTexts <- ContQ
+  Names <- NamesM
+  Texts <- TextsM
+  CommentTexts <- CommentsM
+  ContTexts <- ContM
   DefLines <- Def
   CliLines <- Cli2
-  MaxLines = 3
+  MaxLines = 4
   MaxFiles = 2
 INVARIANT ParseIsFunction
 INVARIANT EscapedNeverStructural
